@@ -49,7 +49,7 @@ CLAIMS = {
          "not index past a fallen-through range check (R10a); every context owner passes raise_error() between any "
          "point that may record an error (directly or via helpers sharing its context) and a normal return (R10b); the "
          "max_errors cap follows the append on every returning path with relation >= (R10c); only handle_error "
-         "branches on collect_errors (R10d).",
+         "branches on collect_errors (R10d). Options.__init__ rewrites a parameter only under a test of that parameter or a documented implication (R10f).",
     note="Undecided: that the collected set names exactly the failing items (value-level).",
     technique="CFG reachability avoiding flush nodes, reaching definitions over exceptional edges, who-may-read rule",
     ref="DESIGN.md 3/C10"),
@@ -57,7 +57,7 @@ CLAIMS = {
     text="Static: every write to the registration list is followed on all paths by a reset of the resolve memo (R16a); "
          "after each front insertion the list is unconditionally stably sorted by the priority component, descending "
          "(R16b); every registration criterion reaches the generated detector with the documented polarity (R16c); "
-         "resolve consults shortcut, memo keyed by the type, the list in order, base, default (R16d).",
+         "resolve consults shortcut, memo keyed by the type, the list in order, base, default (R16d). The memo reset follows the list change on every path, and the memo is filled only inside the own scan.",
     note="Scoped to TypeRegistry; Rule.__origin_transformer__ memoisation at declaration time is documented behaviour.",
     technique="write/invalidate pairing on the CFG, idiom table for order maintenance, guard-fact polarity checks",
     ref="DESIGN.md 3/C16"),
@@ -68,7 +68,7 @@ CLAIMS = {
          "decimal_places <=, regex full match, const equality + type-exactness, enum membership, multiple_of remainder, "
          "unique_items, contains counts) (R02a); accept paths return the input unchanged except the documented "
          "normalisers (R02b); isinstance answers True only after isinstance(obj, origin) and a successful parse (R02c); "
-         "Field/apply accept every constraint keyword and forward it under its own name (R02d).",
+         "Field/apply accept every constraint keyword and forward it under its own name (R02d). No local is carried from one constraint to the next while the validators are compiled (R02e).",
     note="Undecided: digit counting in _parse_decimal, multiple_of on floats, NaN (total-order normalisation on purpose).",
     technique="path-condition extraction per validator + operator-table comparison, dominance checks, keyword-table agreement",
     ref="DESIGN.md 3/C02"),
@@ -77,7 +77,7 @@ CLAIMS = {
          "per action the guard vector - admissible value classes of every Options attribute tested on the way, policy "
          "literals, polarity of the field predicates, closed under summaries of is_required / is_no_input / "
          "parse_addition read from their source - is identical in both (R06a); the alias-conflict comparison compares "
-         "raw with raw (R06b); the selector is exclusive, passes identical arguments, returns the result unchanged (R06c). Consumed-input bookkeeping (R06d), case normalisation (R06e), consumed keys marked on every path from `the field got a value` (R06f), the absence/default pass iterates all declared fields (R06g).",
+         "raw with raw (R06b); the selector is exclusive, passes identical arguments, returns the result unchanged (R06c). Consumed-input bookkeeping (R06d), case normalisation (R06e), consumed keys marked on every path from `the field got a value` (R06f), the absence/default pass iterates all declared fields (R06g). Alias tables are rebuilt from empty tables (R06h); the extra-key pass is never gated by counts and keys are marked consumed only for fields that got a value (R06i).",
     note="Undecided: equality of results in general (needs differential execution); ordering of result keys.",
     technique="sibling cross-check by must-fact guard vectors over a finite value-class domain with callee summaries",
     ref="DESIGN.md 3/C06"),
@@ -87,7 +87,7 @@ CLAIMS = {
          "reassigned input, | and ^ return the exact-type guarded input or a conversion of the original input (R09b); "
          "error discipline per branch, no return inside the ^ loop (R09c); operator methods build the combinator they "
          "denote, reflected operators keep operand order, double negation / dedupe / Any / collapse / flatten are "
-         "present (R09d). The exact-type guard is the bare comparison, not a disjunction admitting subclass instances.",
+         "present (R09d). The exact-type guard is the bare comparison, not a disjunction admitting subclass instances. The union ends with an attempt under exactly the caller's options (R09e); building a combinator never modifies its operands (R09f); no break on the accepting path of ^.",
     note="Undecided: 'accepts exactly when at least one accepts' as a relation over inputs.",
     technique="reaching definitions of the conversion subject per branch, provenance of returned values, guard facts",
     ref="DESIGN.md 3/C09"),
@@ -96,7 +96,7 @@ CLAIMS = {
          "every context.enter passes a non-None route and enter() chains context/route/options (R18b); data-class "
          "contexts are created with the caller's context along every hop (R18c); each staged retry of the union is "
          "guarded so that it is skipped when the current options already include the stage's flags - truth table over "
-         "the guard - with a final unconditional stage (R18d). Every write to the depth is the inherit form or the single increment and the depth error is raised, not collected (R18a); the creating context's conversion flags must survive the data-class boundary (R18e, known finding F34); no branch re-enters the combinator on its own input (R18f).",
+         "the guard - with a final unconditional stage (R18d). Every write to the depth is the inherit form or the single increment and the depth error is raised, not collected (R18a); the creating context's conversion flags must survive the data-class boundary (R18e, known finding F34); no branch re-enters the combinator on its own input (R18f). Only enumerated data-class / function entries create a route-less context chained to a parent (R18g); length rejections precede conversions and no handler retries its own conversion (R18h).",
     note="Undecided: the asymptotic bound as a measured quantity.",
     technique="None-exactness lint on the route parameter, call-chain argument flow, finite truth-table evaluation of guards",
     ref="DESIGN.md 3/C18"),
@@ -107,7 +107,7 @@ CLAIMS = {
          "is_required, nothing stored afterwards, defaults only when not required, is_required honours ignore_required / "
          "always_no_input (R05c); parse_addition is the ordered switch False->ExceedError, falsy->drop, no type->keep, "
          "type->convert (R05d); no_output gates before mapping stores, option precedence in get_default, lookup order "
-         "name->alias->case-insensitive (R05e). A field's own alias_from overrides the alias generator (R05f); parse-time defaults bind defer=False effectively, explicit or via the callee's declared default (R05g); a key that matched a declared field is marked consumed on every path (R06f).",
+         "name->alias->case-insensitive (R05e). A field's own alias_from overrides the alias generator (R05f); parse-time defaults bind defer=False effectively, explicit or via the callee's declared default (R05g); a key that matched a declared field is marked consumed on every path (R06f). Inherited fields merge farthest-base-first (R05h); R05g covers every get_default call site.",
     note="Undecided (the core): alias/case tables as values, mode strings, option interactions - needs a reference model "
          "over declarations x inputs.",
     technique="must-pass-through / dominating guard facts per enforcement point, dead-branch (ordering) check on the switch",
@@ -117,7 +117,7 @@ CLAIMS = {
          "partitioned by the policy literal - EXCLUDE warns, never raises and reaches no store / value return; PRESERVE "
          "warns, never raises and reaches a store / return of exactly the raw element that failed; otherwise a ParseError "
          "goes to handle_error; the policy attribute matches the element kind (R11a); required fields raise under EXCLUDE "
-         "(R11b); element parsers apply only operations every dispatched container type supports (R04c). Every policy-guarded conversion runs on a child context from enter() (R11c).",
+         "(R11b); element parsers apply only operations every dispatched container type supports (R04c). Every policy-guarded conversion runs on a child context from enter() (R11c). Under EXCLUDE parse_value returns get_default(...) (R11d); R10f also runs here.",
     note="Undecided: the metamorphic equality with the filtered input (value-level).",
     technique="handler partition by policy atoms, CFG reachability of stores/returns per partition, provenance of the preserved element",
     ref="DESIGN.md 3/C11"),
@@ -127,7 +127,7 @@ CLAIMS = {
          "result channel exactly under parse_result, wrap() dispatches each function kind with all settings (R08a); the "
          "wrapped function only receives get_params' result and parse_params flushes before returning (R08b=R04e); with "
          "declared yield/send/return types the raw item / sent value / return value cannot reach the yield / send / "
-         "return (R08c); the value returned by send()/asend() is used (R08d). parse_data dominates every return of parse_params and is unconditional (R08e).",
+         "return (R08c); the value returned by send()/asend() is used (R08d). parse_data dominates every return of parse_params and is unconditional (R08e). The **kwargs annotation is merged after the user's options (R08f); R10e and R06i also run on the function parser.",
     note="Undecided (the core): positional index mapping, alias equivalence, *args offsets, defaults - needs generated "
          "signatures against inspect.Signature.bind.",
     technique="sibling agreement of wrapper call sequences, dominance, reaching definitions avoiding waiver branches, "
@@ -139,7 +139,7 @@ CLAIMS = {
          "return types are re-resolved, nested types recursively (R17b); the late re-parse applies the constraints, key, "
          "pending table and globals stored with the pending reference (R17c); apply/__call__ dereference an evaluated "
          "ForwardRef before dispatch and raise for an unevaluated one (R17d); local-scope resets happen after "
-         "re-resolution and classes can resolve their own name (R17e). Each pending entry stores the reference object of its own annotation (R17f).",
+         "re-resolution and classes can resolve their own name (R17e). Each pending entry stores the reference object of its own annotation (R17f). The re-resolution hook is guarded by `resolved` only, ClassParser.globals always injects the class, evaluate_forward_ref passes the namespaces through unchanged (R17g).",
     note="Undecided (the core): behavioural equivalence with the directly written declaration for every order of "
          "definition and first use.",
     technique="dominance / must-pass-through at entries, argument-flow checks on the late re-parse, statement order on the CFG",
@@ -170,7 +170,7 @@ CLAIMS = {
          "always_no_output agree with is_no_input / is_no_output on every value-independent declaration x mode point of "
          "an enumerated finite domain (R13e); container keywords items / prefixItems / patternProperties (R13f); the JSON "
          "kind returned by every registered encoder matches the primitive announced for its type (R13g); the name "
-         "returned by set_def is the one referenced (R13h).",
+         "returned by set_def is the one referenced (R13h). No generator method writes through a class-level container (R13i); R06f also runs here.",
     note="Undecided: draft 2020-12 validity of the whole document and validation of arbitrary parser outputs against it "
          "(needs an independent validator over generated values). Known findings F29a/F29b (large / non-finite Decimal "
          "published as string under type number).",
@@ -215,7 +215,7 @@ CLAIMS = {
          "table read without the lock is only emptied by the lock holder, after every other step of the region (R20b); "
          "the converter registry changes its list and resets its memo in one critical section, fills the memo under the "
          "same lock after a scan under that lock, and reads it lock-free in one atomic operation (R20c); the parser "
-         "memo publishes a completely constructed parser with one store (R20d).",
+         "memo publishes a completely constructed parser with one store (R20d). No lock-free look at the registration list; writes through local aliases of shared containers and property getters are part of the inventory.",
     note="Decides the absence of unsynchronised compound mutation of the anchored state, not the absence of failures "
          "under all schedules (no interleaving is explored). Assumes construction of a class / parser object is "
          "thread-confined until it is published; concurrent mutation of one user instance is out of scope.",
